@@ -41,11 +41,13 @@ def _update_statistics(avg_a, var_a, len_a, avg_b, var_b, len_b):
     new_mean = ((avg_a * len_a) + (avg_b * len_b)) / float(new_len)
 
     delta = avg_b - avg_a
-    scaled_var_a = var_a * (len_a - 1)
-    scaled_var_b = var_b * (len_b - 1)
+    # a chunk with fewer than two samples has no scatter of its own
+    # (its sample variance is undefined, i.e. NaN)
+    scaled_var_a = var_a * (len_a - 1) if len_a > 1 else 0.0
+    scaled_var_b = var_b * (len_b - 1) if len_b > 1 else 0.0
 
     new_var = scaled_var_a + scaled_var_b
     new_var += (delta ** 2) * len_a * len_b / float(new_len)
-    new_var /= float(new_len - 1)
+    new_var = new_var / float(new_len - 1) if new_len > 1 else float("nan")
 
     return new_mean, new_var, new_len
